@@ -69,6 +69,48 @@ let handle (toks : string list) : string =
       if model <> spec then "diff model_rewrite_vs_spec"
       else if res = b01 spec then "ok nt"
       else Printf.sprintf "chk named_%s_%s column=%s presence=%s impl=%s spec=%s" op ctx ascii pres res (b01 spec)
+  | "G" :: agg :: op :: nh :: ph :: mode :: res :: rows when rows <> [] ->
+      (* IS [NOT] NULL / LIKE inside a CASE that is the argument of an aggregate over one window:
+         the per-row flags are the model's (c13_flag = the rewrite on the named-column lookup),
+         the spec is the named-column truth table / the LIKE relation *)
+      let name = bytes_of_hex nh and pat = bytes_of_hex ph in
+      let parse tok =
+        if tok = "A" then ([], None) else if tok = "N" then ([(name, None)], None)
+        else if String.length tok >= 2 && String.sub tok 0 2 = "P:" then
+          let t = bytes_of_hex (String.sub tok 2 (String.length tok - 2)) in ([(name, Some t)], Some t)
+        else failwith "bad row" in
+      let prs = List.map parse rows in
+      let mrows = List.map fst prs in
+      let specflags = List.map (fun (r, t) -> match op with
+        | "isnull" -> col_is_null name r
+        | "isnotnull" -> col_is_not_null name r
+        | "like" -> (match t with Some t -> like pat t | None -> false)
+        | _ -> failwith "bad op") prs in
+      let cnt = List.length (List.filter (fun b -> b) specflags) in
+      let spec = (match agg with
+        | "sum" -> cnt
+        | "max" -> if cnt > 0 then 1 else 0
+        | "min" -> if cnt = List.length rows then 1 else 0
+        | _ -> failwith "bad agg") in
+      let model = if op = "like" then spec else
+        let neg = (op = "isnotnull") in
+        int_of_n (match agg with
+          | "sum" -> c13_sum_flags neg name mrows
+          | "max" -> c13_max_flags neg name mrows
+          | _ -> c13_min_flags neg name mrows) in
+      (* LIKE over a missing column makes the CASE NULL (C06's recorded CASE/NULL rule); a sum over
+         nothing but NULLs may then be NULL: read as 0 here *)
+      let res' = if op = "like" && res = "n" then "0" else res in
+      if model <> spec then "diff model_agg_vs_spec"
+      else if res' = string_of_int spec then "ok nt"
+      else Printf.sprintf "chk agg_case_%s_%s mode=%s impl=%s spec=%d rows=%s" agg op mode res spec (String.concat "," rows)
+  | "GP" :: _nh :: mode :: nulls :: notnulls :: total :: rows when rows <> [] ->
+      (* the IS NULL sum and the IS NOT NULL sum partition the rows of the window *)
+      (match int_of_string_opt nulls, int_of_string_opt notnulls, int_of_string_opt total with
+       | Some a, Some b, Some c when a >= 0 && b >= 0 && c >= 0 ->
+           if c13_partition_ok (n_of_int a) (n_of_int b) (n_of_int c) && c = List.length rows then "ok nt"
+           else Printf.sprintf "chk agg_case_partition mode=%s nulls=%d notnulls=%d count=%d rows=%s" mode a b c (String.concat "," rows)
+       | _ -> Printf.sprintf "chk agg_case_partition mode=%s nulls=%s notnulls=%s count=%s rows=%s" mode nulls notnulls total (String.concat "," rows))
   | _ -> "bad line"
 
 let () = Registry.register "C13" handle
